@@ -451,7 +451,7 @@ def run(tier, R):
                 continue
             for size in ((W, 1), (W, 3)) if quick else SIZES:
                 cfgs.append((wk, kl, size))
-    SEQ_DEPTH[0] = 0 if quick else 1
+    SEQ_DEPTH[0] = 0  # (un-rendered pairs as the first step; one step deeper only the (set_focus, delete) pairs)
     spec = Spec(cfgs)
     res = R.bfs(spec, depth=2 if quick else 3, max_states=None if quick else 3_000_000)
     cov = {
